@@ -128,6 +128,11 @@ Fixpoint insert_file (f : file) (l : list file) : list file :=
 Definition add_file (seq : Z) (t : table) (l : list file) : list file :=
   match t with [] => l | _ => insert_file {| f_seq := seq; f_tab := t |} l end.
 
+Definition min_time_in (s : Z) (t : table) : option Z :=
+  fold_left (fun acc (r : row) => if fst (fst r) =? s then
+                                    match acc with Some m => Some (Z.min m (snd (fst r))) | None => Some (snd (fst r)) end
+                                  else acc) t None.
+
 (* ---- reads ---- *)
 (* out-of-order files: ascending sequence, each later file over the accumulated older ones (FirstTimeInit) *)
 Definition ooo_prod (l : list file) : table := fold_left (fun acc f => over (f_tab f) acc) l [].
@@ -187,12 +192,41 @@ Definition compact (grps : list (list Z)) (L : layout) : layout :=
   {| mem := mem L; snap := snap L; ooo := ooo L; ord := fold_left (fun l g => compact_group g l) grps (ord L);
      wal := wal L; wreq := wreq L |}.
 
-(* merge-self: an adjacent run of out-of-order files becomes one out-of-order file with sequence nseq *)
-Definition merge_self (grp : list Z) (nseq : Z) (L : layout) : layout :=
+(* merge-self: an adjacent run of out-of-order files becomes one out-of-order file with sequence nseq.
+   repaired: the members are folded in sequence order (later file over earlier ones).
+   current : MergeSelf.Merge (merge_self.go) pulls the chunks of one series from ChunkIterators, whose heap orders the
+             chunks of the same series by their MINIMUM TIME (chunk_iterators.go Less), appends them in that order and
+             lets ColumnSortHelper.Sort resolve equal timestamps in favour of the later row: per series the members are
+             folded in min-time order (equal min times: sequence order), not in sequence order. *)
+Definition has_series (s : Z) (f : file) : bool := existsb (fun r : row => fst (fst r) =? s) (f_tab f).
+Definition min_key (s : Z) (f : file) : Z := match min_time_in s (f_tab f) with Some m => m | None => 0 end.
+(* rev_ties: chunks with EQUAL minimum time have no defined order in the heap (it depends on earlier pops/pushes);
+   false = they keep sequence order, true = the later file comes first *)
+Fixpoint ins_by_min (rev_ties : bool) (s : Z) (f : file) (l : list file) : list file :=
+  match l with
+  | [] => [f]
+  | x :: l' => if (min_key s f <? min_key s x) || (rev_ties && (min_key s f =? min_key s x)) then f :: l
+               else x :: ins_by_min rev_ties s f l'
+  end.
+Definition sort_by_min (rev_ties : bool) (s : Z) (l : list file) : list file :=
+  fold_left (fun acc f => ins_by_min rev_ties s f acc) l [].
+Fixpoint zinsert (x : Z) (l : list Z) : list Z :=
+  match l with
+  | [] => [x]
+  | y :: l' => if x <? y then x :: l else if x =? y then l else y :: zinsert x l'
+  end.
+Definition all_series (l : list file) : list Z :=
+  fold_left (fun acc f => fold_left (fun a (r : row) => zinsert (fst (fst r)) a) (f_tab f) acc) l [].
+Definition self_prod_current (rev_ties : bool) (members : list file) : table :=
+  concat (map (fun s => sel s (ooo_prod (sort_by_min rev_ties s (filter (has_series s) members)))) (all_series members)).
+(* mode 0 = repaired; 1 = current, ties in sequence order; 2 = current, ties reversed *)
+Definition merge_self_m (mode : Z) (grp : list Z) (nseq : Z) (L : layout) : layout :=
   let members := filter (in_grp grp) (ooo L) in
+  let merged := if mode =? 0 then ooo_prod members else self_prod_current (mode =? 2) members in
   {| mem := mem L; snap := snap L;
-     ooo := match members with [] => ooo L | _ => replace_run grp {| f_seq := nseq; f_tab := ooo_prod members |} (ooo L) false end;
+     ooo := match members with [] => ooo L | _ => replace_run grp {| f_seq := nseq; f_tab := merged |} (ooo L) false end;
      ord := ord L; wal := wal L; wreq := wreq L |}.
+Definition merge_self (current : bool) := merge_self_m (if current then 1 else 0).
 
 (* out-of-order merge into the ordered files: the consumed out-of-order files (grp) are folded over the ordered
    rows; the result is laid out again over the ordered files. bounds gives, per resulting ordered file (sequence) and
@@ -268,6 +302,20 @@ Inductive op :=
 | MergeSelf (grp : list Z) (nseq : Z)
 | Reopen (n : Z) (allooo : bool) (so su : Z).
 
+(* variant: wc = today's log replay order at reopen, mc = merge-self mode (0 repaired, 1/2 today's member order) *)
+Definition step2 (wc : bool) (mc : Z) (L : layout) (o : op) : layout :=
+  match o with
+  | Write b => write b L
+  | Flush a so su => flush a so su L
+  | BeginFlush => begin_flush L
+  | EndFlush a so su => end_flush a so su L
+  | Compact g => compact g L
+  | MergeOOO g b => merge_ooo g b L
+  | MergeSelf g n => merge_self_m mc g n L
+  | Reopen n a so su => reopen wc n a so su L
+  end.
+Definition run2 (wc : bool) (mc : Z) (h : list op) : layout := fold_left (step2 wc mc) h init.
+
 Definition step (current : bool) (L : layout) (o : op) : layout :=
   match o with
   | Write b => write b L
@@ -276,7 +324,7 @@ Definition step (current : bool) (L : layout) (o : op) : layout :=
   | EndFlush a so su => end_flush a so su L
   | Compact g => compact g L
   | MergeOOO g b => merge_ooo g b L
-  | MergeSelf g n => merge_self g n L
+  | MergeSelf g n => merge_self false g n L
   | Reopen n a so su => reopen current n a so su L
   end.
 Definition run (current : bool) (h : list op) : layout := fold_left (step current) h init.
@@ -312,10 +360,6 @@ Definition between_neighbours (grp : list Z) (nseq : Z) (l : list file) : bool :
 
 (* ordered files: per series the time ranges strictly increase with the position *)
 Definition series_of (t : table) : list Z := map (fun r : row => fst (fst r)) t.
-Definition min_time_in (s : Z) (t : table) : option Z :=
-  fold_left (fun acc (r : row) => if fst (fst r) =? s then
-                                    match acc with Some m => Some (Z.min m (snd (fst r))) | None => Some (snd (fst r)) end
-                                  else acc) t None.
 Fixpoint ord_ok_from (l : list file) : bool :=
   match l with
   | [] => true
